@@ -622,13 +622,49 @@ def check(repo, rep, funcs, rule="R-EFFECT"):
         for q_ in m_.functions:
             if q_ not in inv["functions"] and "<locals>" not in q_:
                 sites.add("%s.%s" % (mn, q_))
+    # helpers introduced by a refactoring are judged in the context of their callers:
+    #  - a write into a *parameter* of such a helper is reported at the call sites that hand it a caller-visible object;
+    #  - a write to `self` is allowed when every (transitive) caller is a documented mutator.
+    new_helpers = set()
+    for mn, m_ in repo.modules.items():
+        inv = inventory().get(mn)
+        for q_ in m_.functions:
+            last = q_.split(".")[-1]
+            if (inv is None or q_ not in inv["functions"]) and last.startswith("_") and not last.startswith("__") and "<locals>" not in q_:
+                new_helpers.add("%s.%s" % (mn, q_))
+    callers = {}
+    if new_helpers:
+        names = {h.split(".")[-1]: h for h in new_helpers}
+        for mn, q_, fn_ in repo.all_functions(include_demo=False, include_nested=False):
+            me = "%s.%s" % (mn, q_)
+            for n_ in ast.walk(fn_):
+                if isinstance(n_, ast.Call):
+                    nm_ = n_.func.attr if isinstance(n_.func, ast.Attribute) else n_.func.id if isinstance(n_.func, ast.Name) else None
+                    h_ = names.get(nm_)
+                    if h_ is not None and h_.split(".")[0] == mn and h_ != me:
+                        callers.setdefault(h_, set()).add(me)
+
+    def self_write_allowed(site, seen=()):
+        if site in ALLOWED_SELF_MUTATORS:
+            return True
+        if site not in new_helpers or site in seen:
+            return False
+        cs = callers.get(site)
+        return bool(cs) and all(self_write_allowed(c, seen + (site,)) for c in cs)
     bad = set()
     for mu in an.mutations:
         if mu.site not in sites:
             continue
-        if getattr(mu, "derived", False):
-            continue
+        derived = getattr(mu, "derived", False)
+        if derived:
+            callee = mu.what.split("passed to ", 1)[1].split(" which", 1)[0] if "passed to " in mu.what else None
+            if callee not in new_helpers:
+                continue
         for r in sorted(mu.roots):
+            if r.startswith("param:") and mu.site in new_helpers and not derived:
+                continue               # judged at the call sites of the helper
+            if (r == "self" or r.startswith("selffield:")) and self_write_allowed(mu.site):
+                continue
             if r.startswith("param:") or r.startswith("global:"):
                 bad.add(mu.site)
                 rep.violation(rule, mu.site, "%s:%s" % (r, mu.what.split(" which")[0][:60]),
